@@ -1,9 +1,9 @@
 SPECIFICATION Spec
 CONSTANTS
-  Scripts <- OneScript
+  Scripts <- LockFail
   Direct = FALSE
-  ForwardHalfClose = FALSE
-  JoinBeforeError = FALSE
+  ForwardHalfClose = TRUE
+  JoinBeforeError = TRUE
   NeedFirstMessage = FALSE
 INVARIANTS TranscriptEquivalence BackendSawPrefix BackendSawAll NoPumpOutlivesHandler
 PROPERTY Finishes
